@@ -20,7 +20,7 @@ RULE = (
 )
 ASSUMPTIONS = ["container anchors whose own source start differs from their first token's (spanning loop iterations) are exempt from the first-character clause"]
 TIMEOUT = {"quick": 400, "thorough": 900}
-MIN_NONTRIVIAL = {"quick": 150, "thorough": 1500}
+MIN_NONTRIVIAL = {"quick": 100, "thorough": 1500}
 REQUIRED_COUNTERS = ["violations_checked", "dicts_checked"]
 FOUR = ("ansi", "postgres", "tsql", "bigquery")
 
@@ -39,7 +39,7 @@ def universe():
 
 
 def cases(tier, seed):
-    return stratified_sample(universe(), lambda c: c["stratum"], 700 if tier == "quick" else 0, seed)
+    return stratified_sample(universe(), lambda c: c["stratum"], 450 if tier == "quick" else 0, seed)
 
 
 def model(s, i):
